@@ -85,11 +85,24 @@ for _op in ['convert_bsei', 'convert_stsei', 'check_slashing']:
     OBLIGATIONS.append(('%s_d1' % _op, mk(_op, 1, 1)))
 
 
+def _index_update(ctx):
+    """UpdateGlobalIndex emits no bank / staking message and writes no pool (world, claims and replay of C19's hub_update)"""
+    from checks.c19 import ob_hub_update
+    return ob_hub_update(1)(ctx)
+
+
+OBLIGATIONS.append(('index_update_d1', _index_update))
+
+
 def tier_filter(name, tier):
     return tier == 'thorough' or not (name.endswith('_v3') or name.endswith('_d3') or name.endswith('_d2'))
 
 
 def replay_any(v, run_scenario):
+    if (v.get('key') or '').startswith('hub_update:'):
+        from smir.replay import generic_replay
+        import checks.c19 as c19_
+        return generic_replay(c19_)(v, run_scenario)
     m = v['model']
     key = v.get('key') or ':'
     op = key.split(':')[0]
